@@ -156,7 +156,9 @@ class RunTaskExecutable(Operation):
                 ctx.tee_processor.shutdown()
             raise
 
-        except OSError as ex:
+        except (OSError, ValueError) as ex:
+            # `ValueError`: a command line that no process can be started with
+            # (e.g., one that contains a NUL byte).
             raise TaskFailed(task_identifier=self._identifier).add_extra_context(
                 str(ex)
             )
